@@ -749,12 +749,22 @@ fn step(w: &mut World, op: &Op, st: &mut Stats) -> Result<(), (&'static str, Str
             let ratio = (b - a) / s;
             let scale = a.abs().max(b.abs()).max(s.abs());
             // documented: half-open [start, stop)
+            // Two natural readings of "the grid points inside [start, stop)": ceil of the ratio, and
+            // the number of i with (start + i*step) on the near side of stop in f64. They can differ
+            // by one when the ratio is within rounding of an integer; then either is accepted.
             let (lo, hi) = if !(ratio > 0.0) {
                 (0usize, 0usize)
-            } else if (ratio - ratio.round()).abs() <= 1e-9 * ratio.abs().max(1.0) {
-                (ratio.round() as usize, ratio.round() as usize + 1)
             } else {
-                (ratio.ceil() as usize, ratio.ceil() as usize)
+                let c1 = ratio.ceil() as usize;
+                let inside = |i: usize| {
+                    let x = a + i as f64 * s;
+                    if s > 0.0 { x < b } else { x > b }
+                };
+                let mut c2 = c1.saturating_sub(2);
+                while inside(c2) && c2 < c1 + 3 {
+                    c2 += 1;
+                }
+                (c1.min(c2), c1.max(c2))
             };
             if out.len() < lo || out.len() > hi {
                 return Err(("grid_wrong", format!("arange({:e},{:e},{:e}) has {} points; the half-open grid has {}", a, b, s, out.len(), if lo == hi { format!("{}", lo) } else { format!("{}..={}", lo, hi) })));
@@ -949,6 +959,28 @@ fn step(w: &mut World, op: &Op, st: &mut Stats) -> Result<(), (&'static str, Str
                     let y = Matrix::new(other.d.clone(), other.r as i32, other.c as i32);
                     st.inc("cmp.scaled");
                     return cmp_oracle(&x, &y, &base, &other, tol.0);
+                }
+                4 | 5 => {
+                    // numerically equal / within-tolerance values around zero must compare close:
+                    // +0.0 vs -0.0, and 0.0 vs a value far inside the (absolute) tolerance
+                    let mut base = mo.clone();
+                    base.d[kk] = if delta.0 < 0.0 { -0.0 } else { 0.0 };
+                    other.d[kk] = if *kind == 4 { -base.d[kk] } else { tol.0 * 1e-4 * if delta.0 > 0.1 { -1.0 } else { 1.0 } };
+                    let x = Matrix::new(base.d.clone(), base.r as i32, base.c as i32);
+                    let y = Matrix::new(other.d.clone(), other.r as i32, other.c as i32);
+                    st.inc("cmp.around_zero");
+                    let ct = catch(|| x.close_to(&y, tol.0)).map_err(|e| ("valid_rejected", format!("close_to panicked: {}", e)))?;
+                    let vct = catch(|| x.data.close_to(&y.data, tol.0)).map_err(|e| ("valid_rejected", format!("close_to panicked: {}", e)))?;
+                    if !ct || !vct {
+                        return Err(("comparison_wrong", format!("close_to(tol {:e}) is false for {:e} vs {:e} (all other elements identical)", tol.0, base.d[kk], other.d[kk])));
+                    }
+                    if *kind == 4 {
+                        let eq = catch(|| x == y).map_err(|e| ("valid_rejected", format!("== panicked: {}", e)))?;
+                        if !eq {
+                            return Err(("comparison_wrong", "== is false for matrices differing only in the sign of a zero".into()));
+                        }
+                    }
+                    return Ok(());
                 }
                 _ => {
                     // same buffer, different shape
@@ -1271,11 +1303,18 @@ fn gen_op(r: &mut Sm, tr: &Tracker, weights: &[u32; 6], p_fault: f64, special: b
                 Op::Linspace { a: Fb(a), b: Fb(b), n: *r.pick(&[1usize, 2, 3, 5, 10, 11, 64]) }
             }
             5 => {
-                let a = gen_val(r, false);
+                let a = if r.chance(0.4) { *r.pick(&[0.0, 0.1, 1.0, -2.0, 0.5]) } else { gen_val(r, false) };
                 let s = *r.pick(&[1.0, 0.5, 0.25, 0.1, 0.3, 0.7, 2.0, 3.0, -1.0, -0.25, -0.3, 1.5]);
                 let npts = r.usize(0, 64) as f64;
                 let frac = *r.pick(&[0.0, 0.0, 0.5, 0.25, 0.9, 1e-3, -0.5]);
-                let b = if r.chance(0.12) { a - s * (1.0 + npts) } else { a + s * (npts + frac) };
+                let mut b = if r.chance(0.12) { a - s * (1.0 + npts) } else { a + s * (npts + frac) };
+                if r.chance(0.3) {
+                    // decimal-looking end point: the ratio is within rounding of an integer, from either side
+                    b = ((a + s * npts) * 10.0).round() / 10.0;
+                } else if r.chance(0.05) {
+                    // an interval far shorter than the step still contains its start
+                    b = a + s * 1e-11;
+                }
                 Op::Arange { a: Fb(a), b: Fb(b), step: Fb(s) }
             }
             _ => Op::Rotation { angle: Fb((r.f64() - 0.5) * 8.0 * std::f64::consts::PI), axis: r.below(3) as u8 },
@@ -1283,7 +1322,7 @@ fn gen_op(r: &mut Sm, tr: &Tracker, weights: &[u32; 6], p_fault: f64, special: b
         _ => match r.below(4) {
             0 => Op::Predicates { m },
             1 => Op::EqClose { a: m, b: r.below(tr.ms.len().max(1) as u64) as usize, tol: Fb(*r.pick(&[1e-6, 1e-9, 1e-12])) },
-            _ => Op::CmpPerturbed { m, kind: r.below(4) as u8, k: r.usize(0, 63), delta: Fb(*r.pick(&[1e-3, 1e-2, 0.5, -1e-3, 1e-13])), tol: Fb(*r.pick(&[1e-6, 1e-9])) },
+            _ => Op::CmpPerturbed { m, kind: r.below(6) as u8, k: r.usize(0, 63), delta: Fb(*r.pick(&[1e-3, 1e-2, 0.5, -1e-3, 1e-13])), tol: Fb(*r.pick(&[1e-6, 1e-9])) },
         },
     }
 }
@@ -1501,7 +1540,7 @@ impl Prop for C15 {
     }
     fn expected_counters(_tier: Tier) -> Vec<String> {
         let mut v: Vec<String> = ALL_OPS.iter().map(|o| format!("op.{}", o)).collect();
-        for k in ["outcome.ok", "outcome.rejected", "fault.reject", "fault.callback_panic", "fault.fill_alloc", "fault.scribble_free", "cmp.opposite_sign", "cmp.scaled", "cmp.same_buffer_other_shape"] {
+        for k in ["outcome.ok", "outcome.rejected", "fault.reject", "fault.callback_panic", "fault.fill_alloc", "fault.scribble_free", "cmp.opposite_sign", "cmp.scaled", "cmp.same_buffer_other_shape", "cmp.around_zero"] {
             v.push(k.to_string());
         }
         for f in Fill::ALL {
